@@ -22,6 +22,7 @@ type TargetSpec struct {
 	Roots   []string `json:"roots,omitempty"`   // if set, the sweep is restricted to functions reachable from these keys
 	Modes   string   `json:"modes"`
 	Note    string   `json:"note,omitempty"`
+	Dep     bool     `json:"dep,omitempty"`     // the target is a function of the uio dependency (verified against its pinned source)
 	Ghost   bool     `json:"ghost,omitempty"` // include functions declared in verif_*.go files (spec functions, lemmas, ghost clients)
 }
 
@@ -137,7 +138,7 @@ func main() {
 		if to == 0 {
 			to = 10
 		}
-		run := eng.runTargets("adhoc", fns, func(*ssa.Function) Modes { return parseModes(*modesFlag) }, time.Duration(to)*time.Second, *workers, *keep, *verbose)
+		run := eng.runTargets("adhoc", fns, func(*ssa.Function) Modes { m := parseModes(*modesFlag); m.Probes = true; return m }, time.Duration(to)*time.Second, *workers, *keep, *verbose)
 		run.print(true)
 		if run.nFailed > 0 {
 			os.Exit(1)
@@ -264,7 +265,7 @@ func (run *Run) print(all bool) {
 			continue
 		}
 		if r.Status != "proved" || all {
-			fmt.Printf("%-8s %6.2fs %-10s %s   [%s:%d] %s\n", r.Status, r.Time, r.Solver, r.Obl.name, shortFile(r.Obl.pos.Filename), r.Obl.pos.Line, strings.Join(r.Attempts, " "))
+			fmt.Printf("%-8s %6.2fs %-10s %s   [%s:%d] %s %s\n", r.Status, r.Time, r.Solver, r.Obl.name, shortFile(r.Obl.pos.Filename), r.Obl.pos.Line, filepath.Base(r.File), strings.Join(r.Attempts, " "))
 		}
 	}
 	fmt.Printf("obligations: %d proved, %d not proved; probes: %d ok, %d vacuous; gen %.1fs solve %.1fs wall %.1fs\n", run.nProved, run.nFailed, run.nProbeOK, run.nProbeBad, run.genTime, run.solveTime, run.wall)
